@@ -606,6 +606,8 @@ Proof.
     + apply IH; [eapply msorted_tail; exact S | exact Hin].
 Qed.
 
+(* the base name of a mixed criterion; its id is [not_used_name crits (mixed_name c1 c2)] (the Go code used the
+   raw base name before the repair, so mixing the same pair twice failed with a collision) *)
 Definition mixed_name (c1 c2 : @crit NumQc) : string := ("__" ++ c_id c1 ++ "+" ++ c_id c2 ++ "__")%string.
 
 (* the value of a component for an alternative holding [v] *)
@@ -711,7 +713,7 @@ Lemma apply_mixing_inv (e : @env NumQc) cur p st rep : apply_mixing e cur p = Ok
      let i1 := @ntruncZ NumQc (@nmul NumQc (fst d1) (@nofZ NumQc (Z.of_nat n))) in
      let off := (@ntruncZ NumQc (@nmul NumQc (fst d2) (@nofZ NumQc (Z.of_nat n - 2))) + 1)%Z in
      let target := ground_zero_range rr in
-     let newc := {| c_id := mixed_name c1 c2; c_type := TGain; c_range := Some target |} in
+     let newc := {| c_id := not_used_name (st_crits cur) (mixed_name c1 c2); c_type := TGain; c_range := Some target |} in
      draw (new_rng e (bp_seed p)) = Ok d1 /\ draw (snd d1) = Ok d2 /\
      nth_opt (Z.to_nat i1) (st_crits cur) = Some c1 /\
      nth_opt (Z.to_nat ((i1 + off) mod Z.of_nat n)) (st_crits cur) = Some c2 /\
@@ -758,7 +760,7 @@ Lemma mixing_struct (e : @env NumQc) cur p st k1 k2 kn add :
     let i1 := @ntruncZ NumQc (@nmul NumQc (fst d1) (@nofZ NumQc (Z.of_nat n))) in
     let off := (@ntruncZ NumQc (@nmul NumQc (fst d2) (@nofZ NumQc (Z.of_nat n - 2))) + 1)%Z in
     let target := ground_zero_range rr in
-    let newc := {| c_id := mixed_name c1 c2; c_type := TGain; c_range := Some target |} in
+    let newc := {| c_id := not_used_name (st_crits cur) (mixed_name c1 c2); c_type := TGain; c_range := Some target |} in
     (2 <= n)%nat /\ is_probability (bp_mix_ratio p) = true /\
     draw (new_rng e (bp_seed p)) = Ok d1 /\ draw (snd d1) = Ok d2 /\
     nth_opt (Z.to_nat i1) (st_crits cur) = Some c1 /\
@@ -791,12 +793,12 @@ Proof.
   split; [apply Nat.ltb_ge in E2; exact E2|].
   do 24 (split; [first [assumption | reflexivity | (eapply update_alts_ids; eassumption)]|]).
   intros ND.
-  assert (F : Forall2 (extended_by (mixed_name c1 c2) mixed) (all_alts cur) new_all).
+  assert (F : Forall2 (extended_by (not_used_name (st_crits cur) (mixed_name c1 c2)) mixed) (all_alts cur) new_all).
   { apply mapM_Forall2 in Hna. eapply Forall2_impl_in; [exact Hna|].
     intros a a' _ _ Ha. cbv beta in Ha. apply bind_ok in Ha as (v & Hv & Ha). apply of_option_ok in Hv.
     apply with_value_ok in Ha as [Hf ->]. cbn [c_id] in *.
     split; [reflexivity|]. split; [exact Hf|]. exists v. split; [exact Hv|reflexivity]. }
-  assert (Hid : forall a a' : @alt NumQc, extended_by (mixed_name c1 c2) mixed a a' -> a_id a' = a_id a)
+  assert (Hid : forall a a' : @alt NumQc, extended_by (not_used_name (st_crits cur) (mixed_name c1 c2)) mixed a a' -> a_id a' = a_id a)
     by (intros a a' (E & _); exact E).
   split.
   - eapply update_alts_partner; [exact F|exact Hid|exact ND| |exact Hc].
@@ -1343,7 +1345,8 @@ Proof.
   destruct H as (Hn & _ & Hd1 & Hd2 & Hc1 & Hc2 & Hr & Href & Hrr & E1 & _ & E3 & _ & E5 & _ & Hv1 & Hv2 & _ & Hag
                  & Hadd & Hm & Hcr & Hnew & _ & _ & HN).
   destruct (HN ND) as (F1 & F2).
-  set (newc := {| c_id := mixed_name c1 c2; c_type := TGain; c_range := Some (ground_zero_range rr) |}) in *.
+  set (newc := {| c_id := not_used_name (st_crits cur) (mixed_name c1 c2); c_type := TGain;
+                  c_range := Some (ground_zero_range rr) |}) in *.
   pose proof (reference_in_state _ _ _ _ _ Hr Href) as Hrefin.
   pose proof (extended_all _ _ _ _ F1 F2) as Fall.
   assert (Ug2 : unit_stream (snd d2)).
@@ -1385,7 +1388,10 @@ Proof.
     + eapply comp_ok_model; [exact NDc|exact ND|eapply nth_opt_In; exact Hc2|exact E3|exact Hv2].
 Qed.
 
-(** ** 3. [not_used_name] *)
+(** ** 3. [not_used_name]: [name], or [name] followed by a number, counting on while the candidate is an existing id.
+    The candidates are pairwise distinct ([nat_to_string] is injective), so among [S (length cs)] consecutive ones
+    at least one is not among the [length cs] ids (pigeonhole): the fuel of the model is enough and the result is
+    always fresh ([not_used_name_fresh]). *)
 Local Open Scope string_scope.
 
 Fixpoint str_val (s : string) (acc : nat) : nat :=
@@ -1429,72 +1435,140 @@ Proof. induction b as [|a b IH]; cbn [append has_prefix]; [reflexivity|]. now re
 Lemma has_prefix_refl (b : string) : has_prefix b b = true.
 Proof. rewrite <- (sapp_nil_r b) at 2. apply has_prefix_app. Qed.
 
-(* the ids [base; base1; ...; base(n-1)] *)
-Definition numbered (base : string) (n : nat) : list string :=
-  match n with
-  | O => []
-  | S m => base :: map (fun i => base ++ nat_to_string i) (seq 1 m)
-  end.
-
-Lemma numbered_length base n : List.length (numbered base n) = n.
-Proof. destruct n; cbn [numbered List.length]; [reflexivity|]. now rewrite map_length, seq_length. Qed.
-
-Definition candidate_name (base : string) (n : nat) : string :=
-  if Nat.eqb n 0 then base else base ++ nat_to_string n.
-
-Lemma filter_map_comm {A B} (f : A -> B) (q : B -> bool) (l : list A) :
-  map f (filter (fun x => q (f x)) l) = filter q (map f l).
-Proof. induction l as [|x l IH]; cbn [filter map]; [reflexivity|]. destruct (q (f x)); cbn [map]; now rewrite IH. Qed.
-
-(* the candidate: [base] followed by the number of ids that start with [base] *)
-Lemma not_used_name_spec (cs : list (@crit NumQc)) base :
-  not_used_name cs base = candidate_name base (List.length (filter (has_prefix base) (map c_id cs))).
+(** *** the candidates [name; name1; name2; ...] are pairwise distinct *)
+Lemma name_candidate_inj name i j : name_candidate name i = name_candidate name j -> i = j.
 Proof.
-  unfold not_used_name, candidate_name.
-  rewrite <- (filter_map_comm c_id (has_prefix base)), map_length. reflexivity.
+  unfold name_candidate. destruct (Nat.eqb i 0) eqn:Ei, (Nat.eqb j 0) eqn:Ej; intros H.
+  - apply Nat.eqb_eq in Ei, Ej. congruence.
+  - exfalso. symmetry in H. apply sapp_self in H. pose proof (nat_to_string_val j) as V.
+    rewrite H in V. cbn [str_val] in V. apply Nat.eqb_neq in Ej. congruence.
+  - exfalso. apply sapp_self in H. pose proof (nat_to_string_val i) as V.
+    rewrite H in V. cbn [str_val] in V. apply Nat.eqb_neq in Ei. congruence.
+  - apply sapp_inj_l, nat_to_string_inj in H. exact H.
 Qed.
 
-Lemma candidate_prefix base n : has_prefix base (candidate_name base n) = true.
-Proof. unfold candidate_name. destruct (Nat.eqb n 0); [apply has_prefix_refl | apply has_prefix_app]. Qed.
+Lemma name_candidate_prefix name n : has_prefix name (name_candidate name n) = true.
+Proof. unfold name_candidate. destruct (Nat.eqb n 0); [apply has_prefix_refl | apply has_prefix_app]. Qed.
 
-Lemma candidate_not_numbered base n : ~ In (candidate_name base n) (numbered base n).
+Lemma NoDup_map_inj {A B} (f : A -> B) : (forall x y, f x = f y -> x = y) ->
+  forall l, NoDup l -> NoDup (map f l).
 Proof.
-  destruct n as [|m]; [intros []|]. unfold candidate_name. cbn [Nat.eqb numbered].
-  intros [H|H].
-  - symmetry in H. apply sapp_self in H.
-    pose proof (nat_to_string_val (S m)) as V. rewrite H in V. cbn [str_val] in V. discriminate.
-  - apply in_map_iff in H as (i & Hi & Hin). apply sapp_inj_l, nat_to_string_inj in Hi.
-    apply in_seq in Hin. lia.
+  intros Hf. induction 1 as [|x l Hn ND IH]; cbn [map]; constructor; [|exact IH].
+  intros C. apply in_map_iff in C as (y & E & Hy). apply Hf in E. subst y. contradiction.
 Qed.
 
-(** the name is fresh PROVIDED the ids that start with [base] are exactly base, base1, ..., base(n-1)
-    in some order ([Hseq]) *)
-Theorem fresh_name (cs : list (@crit NumQc)) base n :
-  forall Hseq : Permutation (filter (has_prefix base) (map c_id cs)) (numbered base n),
-  ~ In (not_used_name cs base) (map c_id cs).
+(* pigeonhole: [m] consecutive candidates that are all in [ids] need [m <= length ids] *)
+Lemma candidates_pigeonhole name (ids : list string) n m :
+  (forall j, (n <= j < n + m)%nat -> In (name_candidate name j) ids) -> (m <= List.length ids)%nat.
 Proof.
-  intros Hseq Hin. rewrite not_used_name_spec in Hin.
-  rewrite (Permutation_length Hseq), numbered_length in Hin.
-  apply (candidate_not_numbered base n). eapply Permutation_in; [exact Hseq|].
-  apply filter_In. split; [exact Hin | apply candidate_prefix].
+  intros H. rewrite <- (seq_length m n), <- (map_length (name_candidate name)).
+  apply NoDup_incl_length.
+  - apply NoDup_map_inj; [intros i j; apply name_candidate_inj | apply seq_NoDup].
+  - intros x Hx. apply in_map_iff in Hx as (j & <- & Hj). apply in_seq in Hj. apply H. lia.
 Qed.
 
-(** outside that situation the name can collide: one criterion named base ++ "1" *)
-Theorem fresh_name_refuted_general :
-  exists (cs : list (@crit NumQc)) base, In (not_used_name cs base) (map c_id cs).
+Lemma first_free_name_aux : forall fuel ids name n, exists k,
+  (n <= k <= n + fuel)%nat /\ first_free_name fuel ids name n = name_candidate name k /\
+  (forall j, (n <= j < k)%nat -> In (name_candidate name j) ids) /\
+  ((k < n + fuel)%nat -> ~ In (name_candidate name k) ids).
 Proof.
-  exists [{| c_id := base_concealed ++ "1"; c_type := TGain; c_range := None |}], base_concealed.
-  vm_compute. left. reflexivity.
+  induction fuel as [|f IH]; intros ids name n; cbn [first_free_name].
+  - exists n. split; [lia|]. split; [reflexivity|]. split; intros; lia.
+  - destruct (mem_str (name_candidate name n) ids) eqn:E.
+    + destruct (IH ids name (S n)) as (k & Hk & Hr & Hall & Hfree). exists k.
+      split; [lia|]. split; [exact Hr|]. split.
+      * intros j Hj. destruct (Nat.eq_dec j n) as [->|NE]; [now apply mem_str_In | apply Hall; lia].
+      * intros Hlt. apply Hfree. lia.
+    + exists n. split; [lia|]. split; [reflexivity|]. split; [intros; lia|].
+      intros _. now apply mem_str_false.
 Qed.
 
-(** in [apply_concealment] a collision makes the bias fail ([add_criterion]), so a result is still well-formed *)
-Theorem concealment_collision_fails (e : @env NumQc) cur p :
-  In (not_used_name (st_crits cur) base_concealed) (map c_id (st_crits cur)) ->
-  forall st rep, apply_concealment e cur p <> Ok (st, rep).
+(** the loop returns the first candidate from [n] on that is not in [ids]; with more fuel than ids it finds one *)
+Lemma first_free_name_spec fuel ids name n : exists k,
+  (n <= k)%nat /\ first_free_name fuel ids name n = name_candidate name k /\
+  (forall j, (n <= j < k)%nat -> In (name_candidate name j) ids) /\
+  ((List.length ids < fuel)%nat -> ~ In (first_free_name fuel ids name n) ids).
 Proof.
-  intros Hin st rep H. destruct (apply_concealment_report _ _ _ _ _ H) as (c & vals & add & ->).
-  apply concealment_struct in H as (ranked & ref & rr & ag & g2 & _ & _ & _ & Hc & _ & Hnew & _).
-  apply Hnew. rewrite Hc. exact Hin.
+  destruct (first_free_name_aux fuel ids name n) as (k & Hk & Hr & Hall & Hfree). exists k.
+  split; [lia|]. split; [exact Hr|]. split; [exact Hall|]. intros Hlen. rewrite Hr. apply Hfree.
+  destruct (Nat.eq_dec k (n + fuel)) as [->|NE]; [|lia]. exfalso.
+  pose proof (candidates_pigeonhole name ids n fuel Hall). lia.
+Qed.
+
+(** *** main theorem: the generated name is never one of the existing ids (any numeric carrier) *)
+Theorem not_used_name_fresh {N : Num} : forall (cs : list (@crit N)) (name : string),
+  ~ In (not_used_name cs name) (map c_id cs).
+Proof.
+  intros cs name. unfold not_used_name. cbv zeta.
+  match goal with |- ~ In (first_free_name ?f ?ids ?nm ?n) _ =>
+    destruct (first_free_name_spec f ids nm n) as (k & _ & _ & _ & H) end.
+  apply H. rewrite map_length. lia.
+Qed.
+
+(* what the name is: [name] followed by the first number, counting from the number of ids that start with
+   [name] (no number for 0), that gives an unused id *)
+Lemma not_used_name_spec {N : Num} (cs : list (@crit N)) name :
+  let n0 := List.length (filter (fun c => has_prefix name (c_id c)) cs) in
+  exists k, (n0 <= k)%nat /\ not_used_name cs name = name_candidate name k /\
+            (forall j, (n0 <= j < k)%nat -> In (name_candidate name j) (map c_id cs)) /\
+            ~ In (name_candidate name k) (map c_id cs).
+Proof.
+  cbv zeta. pose proof (not_used_name_fresh cs name) as F. unfold not_used_name in *. cbv zeta in *.
+  match goal with |- exists k, (?n <= k)%nat /\ first_free_name ?f ?ids ?nm ?n = _ /\ _ =>
+    destruct (first_free_name_spec f ids nm n) as (k & Hk & Hr & Hall & _) end.
+  exists k. split; [exact Hk|]. split; [exact Hr|]. split; [exact Hall|]. rewrite <- Hr. exact F.
+Qed.
+
+(* when the first guess (the name computed before the repair) is unused, it is still the result *)
+Lemma not_used_name_first_guess {N : Num} (cs : list (@crit N)) name :
+  let n0 := List.length (filter (fun c => has_prefix name (c_id c)) cs) in
+  ~ In (name_candidate name n0) (map c_id cs) -> not_used_name cs name = name_candidate name n0.
+Proof.
+  cbv zeta. intros H. unfold not_used_name. cbv zeta. cbn [first_free_name].
+  apply mem_str_false in H. rewrite H. reflexivity.
+Qed.
+
+Lemma not_used_name_prefix {N : Num} (cs : list (@crit N)) name : has_prefix name (not_used_name cs name) = true.
+Proof. destruct (not_used_name_spec cs name) as (k & _ & -> & _). apply name_candidate_prefix. Qed.
+
+(* hence adding a criterion under that name never fails with a collision *)
+Lemma add_criterion_not_used_name {N : Num} (cs : list (@crit N)) name ty rg :
+  add_criterion cs {| c_id := not_used_name cs name; c_type := ty; c_range := rg |}
+  = Ok (cs ++ [{| c_id := not_used_name cs name; c_type := ty; c_range := rg |}])%list.
+Proof.
+  unfold add_criterion. cbn [c_id].
+  rewrite (proj2 (mem_str_false _ _) (not_used_name_fresh cs name)). reflexivity.
+Qed.
+
+(** *** the new criterion's id was not used before.
+    History: before the repair of [Criteria.NotUsedName] this theorem needed the hypothesis that the ids starting
+    with [base] are exactly base, base1, ..., base(n-1) ([Hseq : Permutation (filter (has_prefix base) ids)
+    (numbered base n)]); the name now keeps counting while the candidate is taken, so no hypothesis is left. *)
+Theorem fresh_name (cs : list (@crit NumQc)) base : ~ In (not_used_name cs base) (map c_id cs).
+Proof. apply not_used_name_fresh. Qed.
+
+(* concealment: the reported criterion carries that name and it is new *)
+Theorem concealment_fresh_name (e : @env NumQc) cur p st c vals add :
+  apply_concealment e cur p = Ok (st, RConcealment c vals add) ->
+  c_id c = not_used_name (st_crits cur) base_concealed /\ ~ In (c_id c) (map c_id (st_crits cur)) /\
+  st_crits st = (st_crits cur ++ [c])%list.
+Proof.
+  intros H. apply concealment_struct in H as (ranked & ref & rr & ag & g2 & _ & _ & _ & Hc & Hcr & _).
+  split; [rewrite Hc; reflexivity|]. split; [|exact Hcr]. rewrite Hc. cbn [c_id]. apply not_used_name_fresh.
+Qed.
+
+(* mixing: the id of the mixed criterion is derived from "__<first>+<second>__" and it is new *)
+Theorem mixing_fresh_name (e : @env NumQc) cur p st k1 k2 kn add :
+  apply_mixing e cur p = Ok (st, RMixing k1 k2 kn add) ->
+  cp_id kn = not_used_name (st_crits cur) ("__" ++ cp_id k1 ++ "+" ++ cp_id k2 ++ "__") /\
+  ~ In (cp_id kn) (map c_id (st_crits cur)) /\
+  exists c, st_crits st = (st_crits cur ++ [c])%list /\ c_id c = cp_id kn.
+Proof.
+  intros H. apply mixing_struct in H as (d1 & d2 & c1 & c2 & ranked & ref & rr & ag & H).
+  cbv zeta in H.
+  destruct H as (_ & _ & _ & _ & _ & _ & _ & _ & _ & E1 & _ & E3 & _ & E5 & _ & _ & _ & _ & _ & _ & _ & Hcr & _).
+  cbn [c_id] in E5. rewrite E1, E3, E5. split; [reflexivity|]. split; [apply not_used_name_fresh|].
+  eexists. split; [exact Hcr|reflexivity].
 Qed.
 
 (** ** Counterexample: with two alternatives of the same id the concealed values are not the reported ones
@@ -1570,3 +1644,121 @@ Definition cx2_verdict : bool :=
   end.
 Theorem new_weight_needs_ready : cx2_verdict = true.
 Proof. vm_compute. reflexivity. Qed.
+
+(** ** The repaired naming on the data that used to collide.
+    History: before the repair, [not_used_name cs base] was [base] followed by the NUMBER of ids starting with
+    [base] (nothing for 0) and nothing else; with a gap in the numbering (one criterion named base ++ "1") that
+    name was already taken. [fresh_name_refuted_general] stated this collision
+    ([exists cs base, In (not_used_name cs base) (map c_id cs)], witness below) and
+    [concealment_collision_fails] stated that [apply_concealment] then failed in [add_criterion]
+    ([In (not_used_name (st_crits cur) base_concealed) (map c_id (st_crits cur)) -> forall st rep,
+    apply_concealment e cur p <> Ok (st, rep)]). Both are FALSE for the repaired program (their hypothesis/witness
+    contradicts [not_used_name_fresh]). The names are kept, because a generated file refers to them, for the
+    statements of the repaired behaviour on the SAME witness data. *)
+Local Open Scope string_scope.
+Definition cx3_stale : @crit NumQc := {| c_id := base_concealed ++ "1"; c_type := TGain; c_range := None |}.
+
+(** on the old witness (a single criterion named base1) the first guess base1 is taken and the result is base2 *)
+Theorem fresh_name_refuted_general :
+  let cs : list (@crit NumQc) := [cx3_stale] in
+  In (name_candidate base_concealed (List.length (filter (fun c => has_prefix base_concealed (c_id c)) cs)))
+     (map c_id cs) /\
+  not_used_name cs base_concealed = base_concealed ++ "2" /\
+  ~ In (not_used_name cs base_concealed) (map c_id cs).
+Proof.
+  cbv zeta. split; [vm_compute; left; reflexivity|]. split; [vm_compute; reflexivity|].
+  vm_compute. intros [H|[]]. discriminate.
+Qed.
+
+(* a gap further on: ids base, base2 -> first guess base2 is taken, result base3 *)
+Example not_used_name_skips_taken :
+  not_used_name [{| c_id := base_concealed; c_type := TGain; c_range := @None (Qc * Qc) |};
+                 {| c_id := base_concealed ++ "2"; c_type := TGain; c_range := None |}] base_concealed
+  = base_concealed ++ "3".
+Proof. vm_compute. reflexivity. Qed.
+
+(* counting goes past one digit *)
+Example not_used_name_two_digits :
+  not_used_name (map (fun i => {| c_id := name_candidate "k" i; c_type := TGain; c_range := @None (Qc * Qc) |})
+                     (seq 0 12)) "k" = "k12".
+Proof. vm_compute. reflexivity. Qed.
+
+(** a state whose criteria are "c" and base1: the old program failed here with a collision *)
+Definition cx3_state : @state NumQc :=
+  {| st_notcons := [];
+     st_cons := [{| a_id := "x"; a_vals := mset "c" (cxq 0 1) (mset (c_id cx3_stale) (cxq 2 1) []) |};
+                 {| a_id := "y"; a_vals := mset "c" (cxq 10 1) (mset (c_id cx3_stale) (cxq 3 1) []) |}];
+     st_crits := [cx_c; cx3_stale]; st_params := PWs [(cx_c, cxq 1 1); (cx3_stale, cxq 1 2)] |}.
+
+Definition cx3_verdict : bool :=
+  match apply_concealment cx_env cx3_state cx_props with
+  | Ok (st, RConcealment c vals add) =>
+      Stage.inv cx3_state && Stage.inv st
+      && mem_str (name_candidate base_concealed 1) (map c_id (st_crits cx3_state))
+      && String.eqb (c_id c) (base_concealed ++ "2")
+      && list_eqb String.eqb (map c_id (st_crits st)) ["c"; base_concealed ++ "1"; base_concealed ++ "2"]
+      && C18_ok b_concealment cx_props cx3_state st (RConcealment c vals add)
+  | _ => false
+  end.
+Lemma list_eqb_str_eq : forall l l' : list string, list_eqb String.eqb l l' = true -> l = l'.
+Proof.
+  induction l as [|x l IH]; intros [|y l'] H; cbn [list_eqb] in H; try discriminate; [reflexivity|].
+  apply andb_true_iff in H as [H1 H2]. apply String.eqb_eq in H1. subst y. f_equal. now apply IH.
+Qed.
+
+Lemma cx3_verdict_true : cx3_verdict = true.
+Proof. vm_compute. reflexivity. Qed.
+
+(** on the old colliding state (the old name base1 is an existing id) concealment now succeeds, under the name base2 *)
+Theorem concealment_collision_fails :
+  In (name_candidate base_concealed 1) (map c_id (st_crits cx3_state)) /\
+  exists st rep, apply_concealment cx_env cx3_state cx_props = Ok (st, rep) /\
+    map c_id (st_crits st) = ["c"; base_concealed ++ "1"; base_concealed ++ "2"] /\
+    Stage.inv cx3_state = true /\ Stage.inv st = true /\ C18_ok b_concealment cx_props cx3_state st rep = true.
+Proof.
+  pose proof cx3_verdict_true as H. unfold cx3_verdict in H.
+  destruct (apply_concealment cx_env cx3_state cx_props) as [[st rep]|] eqn:E; [|discriminate].
+  destruct rep as [| | | |c vals add| |]; try discriminate.
+  repeat (apply andb_true_iff in H as [H ?]).
+  split; [now apply mem_str_In|]. exists st, (RConcealment c vals add). split; [reflexivity|].
+  split; [|repeat split; assumption].
+  now apply list_eqb_str_eq.
+Qed.
+
+(** mixing the same pair twice (same seed, hence the same draws and the same pair "a", "b"): the old program named
+    both new criteria "__a+b__" and failed the second time; now the second one is "__a+b__1" *)
+Definition mx_a : @crit NumQc := {| c_id := "a"; c_type := TGain; c_range := None |}.
+Definition mx_b : @crit NumQc := {| c_id := "b"; c_type := TCost; c_range := None |}.
+Definition mx_state : @state NumQc :=
+  {| st_notcons := [{| a_id := "z"; a_vals := [("a", cxq 4 1); ("b", cxq 1 1)] |}];
+     st_cons := [{| a_id := "x"; a_vals := [("a", cxq 0 1); ("b", cxq 7 1)] |};
+                 {| a_id := "y"; a_vals := [("a", cxq 10 1); ("b", cxq 3 1)] |}];
+     st_crits := [mx_a; mx_b]; st_params := PWs [(mx_a, cxq 1 1); (mx_b, cxq 1 2)] |}.
+
+Definition mx_ids (r : @report NumQc) : list string :=
+  match r with RMixing k1 k2 kn _ => [cp_id k1; cp_id k2; cp_id kn] | _ => [] end.
+
+Definition mx_twice : res (list string * list string * list string * list string * bool) :=
+  do r1 <- apply_mixing cx_env mx_state cx_props;
+  do r2 <- apply_mixing cx_env (fst r1) cx_props;
+  Ok (map c_id (st_crits (fst r1)), mx_ids (snd r1), map c_id (st_crits (fst r2)), mx_ids (snd r2),
+      Stage.inv mx_state && Stage.inv (fst r1) && Stage.inv (fst r2)
+      && C18_ok b_mixing cx_props mx_state (fst r1) (snd r1) && C18_ok b_mixing cx_props (fst r1) (fst r2) (snd r2)).
+
+Example mixing_twice_same_pair :
+  mx_twice = Ok (["a"; "b"; "__a+b__"], ["a"; "b"; "__a+b__"],
+                 ["a"; "b"; "__a+b__"; "__a+b__1"], ["a"; "b"; "__a+b__1"], true).
+Proof. vm_compute. reflexivity. Qed.
+
+(* the same, unfolded: both applications succeed *)
+Corollary mixing_twice_same_pair_ok :
+  exists st1 rep1 st2 rep2,
+    apply_mixing cx_env mx_state cx_props = Ok (st1, rep1) /\ apply_mixing cx_env st1 cx_props = Ok (st2, rep2) /\
+    map c_id (st_crits st1) = ["a"; "b"; "__a+b__"] /\ mx_ids rep1 = ["a"; "b"; "__a+b__"] /\
+    map c_id (st_crits st2) = ["a"; "b"; "__a+b__"; "__a+b__1"] /\ mx_ids rep2 = ["a"; "b"; "__a+b__1"].
+Proof.
+  pose proof mixing_twice_same_pair as H. unfold mx_twice in H.
+  destruct (apply_mixing cx_env mx_state cx_props) as [[st1 rep1]|] eqn:E1; [|discriminate]. cbn [bind fst snd] in H.
+  destruct (apply_mixing cx_env st1 cx_props) as [[st2 rep2]|] eqn:E2; [|discriminate]. cbn [bind fst snd] in H.
+  injection H as H1 H2 H3 H4 _. exists st1, rep1, st2, rep2. repeat split; assumption.
+Qed.
